@@ -13,6 +13,9 @@ ENGINE = "e1-bounded-enumeration"
 
 ATOMS = ["[1]", "[499]", "[500]", "[900]", "[901]", "[2P]", "[7P0..1]", "[UB1]", "[UB3]", "[2000]", "[0012]", "[12]"]
 PACKAGES = {"2P": "[3] U [600] U [950]", "7P": "[2499] O [12][999]"}
+# second table: abbreviations (time conditions) that come in WITH a package
+PACKAGES_UB = {"2P": "[UB1] U [3]", "7P": "[600] O [UB3][999]"}
+TABLES = [PACKAGES, PACKAGES_UB]
 FLAGS = [(False, False), (True, False), (False, True), (True, True)]
 BOUNDS = {"quick": {"expr_n": 2, "gen_m": 4, "gen_n": 4, "gen_cap": 6000}, "thorough": {"expr_n": 3, "gen_m": 6, "gen_n": 6, "gen_cap": 50000}}
 
@@ -22,7 +25,8 @@ def describe(tier):
     return {
         "rule": "(a) every key number 0..3000 plus 9999, 10000 and leading-zero forms through extract_categorized_keys('[k]') and "
                 f"derive_condition_node_type; (b) every well-formed expression with <= {b['expr_n']} atoms (<= 1 bracket pair) over the 12 atoms "
-                + " ".join(ATOMS) + " x 4 flag combinations (resolve_packages, replace_time_conditions); (c) all ordered pairs (e1, e2) of "
+                + " ".join(ATOMS) + " x 4 flag combinations (resolve_packages, replace_time_conditions), "
+                f"expressions with a package also under a second package table whose packages contain time conditions ({PACKAGES_UB}); (c) all ordered pairs (e1, e2) of "
                 "1-atom/2-atom expressions for extract(e1 op e2) == extract(e1) + extract(e2); (d) "
                 f"generate_possible_content_evaluation_results for ALL (m, n) with m <= {b['gen_m']} requirement keys, n <= {b['gen_n']} format "
                 f"keys and 3^m*2^n <= {b['gen_cap']}, key lists in ascending AND in every rotated/reversed order. Oracle: category = literal "
@@ -63,10 +67,10 @@ def worker_init():
     _I = impl
 
 
-def _extract(expr, fp=False, ft=False):
+def _extract(expr, fp=False, ft=False, table=0):
     I = _I
     r = I.try_call(lambda: I.run(I.extract_categorized_keys(expr, resolve_packages=fp, replace_time_conditions=ft),
-                                 I.Env(packages=PACKAGES)))
+                                 I.Env(packages=TABLES[table])))
     if r[0] == "exc":
         return ("exc", r[1])
     x = r[1]
@@ -74,9 +78,9 @@ def _extract(expr, fp=False, ft=False):
                    "pkg": list(x.package_keys), "time": list(x.time_condition_keys)}, x)
 
 
-def _expected(expr, fp, ft):
+def _expected(expr, fp, ft, table=0):
     """expected category lists from the textually substituted string (reference parser), or 'reject'"""
-    sub = R6.substitute(expr, PACKAGES, fp, ft)
+    sub = R6.substitute(expr, TABLES[table], fp, ft)
     leaves = R2.leaves(R2.parse(sub))
     exp = {"rc": set(), "hint": set(), "fc": set(), "pkg": set(), "time": set()}
     for lf in leaves:
@@ -115,13 +119,13 @@ def check_key(k):
     return out
 
 
-def check_expr(expr, fp, ft):
+def check_expr(expr, fp, ft, table=0):
     if _I is None:
         worker_init()
     out = []
-    case = {"expr": expr, "resolve_packages": fp, "replace_time_conditions": ft}
-    exp = _expected(expr, fp, ft)
-    r = _extract(expr, fp, ft)
+    case = {"expr": expr, "resolve_packages": fp, "replace_time_conditions": ft, "table": table}
+    exp = _expected(expr, fp, ft, table)
+    r = _extract(expr, fp, ft, table)
     if exp == "reject":
         if r[0] == "ok":
             out.append({"kind": "out-of-range-key-accepted", "case": case, "expected": "rejected", "observed": r[1], "msg": expr})
@@ -255,6 +259,8 @@ def run_item(item):
                         expr = S.render(tmpl, atoms=list(atoms))
                         for fp, ft in FLAGS:
                             acc(check_expr(expr, fp, ft), n >= 2, {"expr": expr, "flags": [fp, ft]})
+                            if fp and "P" in expr:  # the same with packages that bring time conditions along
+                                acc(check_expr(expr, fp, ft, 1), True, {"expr": expr, "flags": [fp, ft], "table": 1})
     elif fam == "compose":
         singles = ATOMS + ["[1] U [500]", "[901][1]", "[2P] O [12]", "[12] X [0012]", "[1000]"]
         i = -1
@@ -280,7 +286,7 @@ def replay(case):
     if "key" in case:
         return check_key(case["key"])
     if "expr" in case:
-        return check_expr(case["expr"], case["resolve_packages"], case["replace_time_conditions"])
+        return check_expr(case["expr"], case["resolve_packages"], case["replace_time_conditions"], case.get("table", 0))
     if "e1" in case:
         return check_compose(case["e1"], case["e2"], case["op"])
     return check_gen(case["rc_keys"], case["fc_keys"])[0]
